@@ -15,6 +15,7 @@ const prelude = `(define-fun TZERO () Int (- 4611686018427387904))
 (define-fun wrapS ((x Int) (h Int) (m Int)) Int (ite (and (<= (- h) x) (< x h)) x (- (mod (+ x h) m) h)))
 (define-fun wrapU ((x Int) (m Int)) Int (ite (and (<= 0 x) (< x m)) x (mod x m)))
 (declare-fun atime (Int) Int)
+(declare-fun box_len (Int) Int)
 `
 
 type SolveResult struct {
